@@ -5,16 +5,15 @@
    sum over the value's named units of exponent x the unit's base-unit
    decomposition, with celsius and fahrenheit identified with kelvin
    (Units/Dim.v).  The theorems are about the model of num/unit.rs for ALL
-   values (arbitrary unit lists, base-unit maps, rational exponents).
+   values (arbitrary unit lists, base-unit maps, rational exponents), with no
+   exception.
 
-   Known defect (known_findings.d/C05.json, class temperature_mix_overwrite):
-   Unit::reduce_hashmap renames celsius / fahrenheit to kelvin with
-   HashMap::insert, which REPLACES an existing kelvin entry instead of adding
-   to it.  The full-strength statement "a successful addition has equal
-   dimensions" is therefore refuted (C05_add_same_dim_refuted); it holds
-   whenever no hash map met by an addition, conversion or pure-number function
-   holds two of celsius / fahrenheit / kelvin ([unmixed], [unmixed_tree]). *)
-From FendV Require Import Base.Prelude Units.Defs Units.Algebra Units.Lookup Units.Dim Units.DimProofs
+   History: until fend commit 1210896 Unit::reduce_hashmap renamed celsius /
+   fahrenheit to kelvin with HashMap::insert, replacing an existing kelvin
+   entry, and the addition clause was false (known_findings.d/C05.json, class
+   temperature_mix_overwrite, now "fixed").  The model of the old code and its
+   refutation are kept in Units/OldReduce.v (C05_add_same_dim_old_refuted). *)
+From FendV Require Import Base.Prelude Units.Defs Units.Algebra Units.Lookup Units.Dim Units.DimProofs Units.OldReduce
      Units.Index Units.Legality Units.Table Units.TableProofs05.
 From FendV Require Import Units.Generated.UnitTable.
 From Coq Require Import QArith.
@@ -40,64 +39,73 @@ Theorem C05_pow_dim : forall a q v k, v_pow a (num_value q) = Ok v -> (vdim v k 
 Proof. exact pow_dim. Qed.
 Print Assumptions C05_pow_dim.
 
-(* adding (subtracting is adding the negation): equal dimensions, or the right
-   operand is zero and the sum is the left operand unchanged *)
+(* adding (subtracting is adding the negation): the result carries the left
+   operand's units, and either the dimensions are equal or the right operand
+   is zero and the magnitude is the left operand's *)
 Theorem C05_add_needs_same_dim : forall a b v,
   v_add a b = Ok v ->
-  (v_is_zero b = true /\ v = a) \/
-  (v_units v = v_units a /\
-   (unmixed (v_units a) = true -> unmixed (v_units b) = true -> forall k, (vdim a k == vdim b k)%Q)).
+  v_units v = v_units a /\
+  ((v_is_zero b = true /\ v_val v = v_val a) \/ (forall k, (vdim a k == vdim b k)%Q)).
 Proof. exact add_needs_same_dim. Qed.
 Print Assumptions C05_add_needs_same_dim.
 
 Theorem C05_add_incompatible_is_error : forall a b,
-  v_is_zero b = false -> unmixed (v_units a) = true -> unmixed (v_units b) = true ->
-  (exists k, ~ (vdim a k == vdim b k)%Q) -> forall v, v_add a b <> Ok v.
+  v_is_zero b = false -> (exists k, ~ (vdim a k == vdim b k)%Q) -> forall v, v_add a b <> Ok v.
 Proof. exact add_incompatible. Qed.
 Print Assumptions C05_add_incompatible_is_error.
-
-(* the same statement without the [unmixed] hypotheses is false for the code
-   as it is: (1 celsius kelvin) + (1 kelvin) is accepted *)
-Theorem C05_add_same_dim_refuted :
-  exists a b v, v_add a b = Ok v /\ v_is_zero b = false /\ ~ (forall k, (vdim a k == vdim b k)%Q).
-Proof. exact add_same_dim_refuted. Qed.
-Print Assumptions C05_add_same_dim_refuted.
 
 (* converting needs equal dimensions; the result carries the target's units *)
 Theorem C05_convert_needs_same_dim : forall a b v,
   v_convert_to a b = Ok v ->
-  v_units v = v_units b /\
-  (unmixed (v_units a) = true -> unmixed (v_units b) = true -> forall k, (vdim a k == vdim b k)%Q).
+  v_units v = v_units b /\ forall k, (vdim a k == vdim b k)%Q.
 Proof. exact convert_needs_same_dim. Qed.
 Print Assumptions C05_convert_needs_same_dim.
 
 (* functions that need a pure number (ln, log, factorial, mod, bitwise, nCr,
    nPr, and the exponent of a power) reject dimensioned arguments *)
 Theorem C05_unitless_required : forall a r,
-  v_require_unitless a = Ok r -> unmixed (v_units a) = true -> forall k, (vdim a k == 0)%Q.
+  v_require_unitless a = Ok r -> forall k, (vdim a k == 0)%Q.
 Proof. exact unitless_required. Qed.
 Print Assumptions C05_unitless_required.
 
-(* renaming temperature bases is exact on maps that do not mix them *)
-Theorem C05_reduce_hashmap_except_known : forall h h' adj off,
-  reduce_hashmap h = Ok (h', adj, off) -> unmixed_map h = true ->
+(* renaming the temperature bases adds the exponents (every hash map the code
+   builds has distinct keys: C05_hashmap_keys_distinct) *)
+Theorem C05_reduce_hashmap : forall h h' adj off,
+  reduce_hashmap h = Ok (h', adj, off) -> nodup_str (map fst h) = true ->
   nodup_str (map fst h') = true /\ forall k, (dimf h' k == tdim (dimf h) k)%Q.
 Proof. exact reduce_hashmap_dims. Qed.
-Print Assumptions C05_reduce_hashmap_except_known.
+Print Assumptions C05_reduce_hashmap.
+
+Theorem C05_hashmap_keys_distinct : forall us h s,
+  to_hashmap_and_scale us = Ok (h, s) -> nodup_str (map fst h) = true.
+Proof. exact to_hashmap_nodup. Qed.
+Print Assumptions C05_hashmap_keys_distinct.
 
 (* whole expressions over ANY resolver of names: a successful evaluation is a
    physically well-dimensioned expression and the result has the dimension
    physics assigns; an expression physics rejects is never a number *)
-Theorem C05_sound_except_known : forall resolve e v,
-  meval resolve e = Ok v -> unmixed_tree resolve e = true ->
+Theorem C05_sound : forall resolve e v,
+  meval resolve e = Ok v ->
   exists f, HasDim resolve e f /\ forall k, (vdim v k == f k)%Q.
 Proof. exact meval_sound. Qed.
-Print Assumptions C05_sound_except_known.
+Print Assumptions C05_sound.
 
 Theorem C05_ill_dimensioned_is_error : forall resolve e,
-  unmixed_tree resolve e = true -> (forall f, ~ HasDim resolve e f) -> forall v, meval resolve e <> Ok v.
+  (forall f, ~ HasDim resolve e f) -> forall v, meval resolve e <> Ok v.
 Proof. exact ill_dimensioned_is_error. Qed.
 Print Assumptions C05_ill_dimensioned_is_error.
+
+(* documentation of the repaired defect: with the reduce_hashmap of before
+   commit 1210896 (Units/OldReduce.v) a sum of different dimensions was
+   accepted: (1 celsius kelvin) + (1 kelvin); the current model rejects it *)
+Theorem C05_add_same_dim_old_refuted :
+  exists a b v, v_add_old a b = Ok v /\ v_is_zero b = false /\ ~ (forall k, (vdim a k == vdim b k)%Q).
+Proof. exact add_same_dim_old_refuted. Qed.
+Print Assumptions C05_add_same_dim_old_refuted.
+
+Theorem C05_old_witness_now_rejected : v_add w_ck w_k = Err EIncompatible.
+Proof. exact witness_now_rejected. Qed.
+Print Assumptions C05_old_witness_now_rejected.
 
 (* the dimension of every name of the regenerated table: the model's
    to_hashmap_and_scale agrees with the tree's own on every name *)
@@ -109,8 +117,7 @@ Print Assumptions C05_name_dimensions.
 (* (3 km / 2 s) + 5 mph evaluates, is unmixed, and is a velocity *)
 Example C05_sound_inhabited :
   match meval model_resolve ex_speed with
-  | Ok v => unmixed_tree model_resolve ex_speed
-            && Qeq_bool (vdim v [109;101;116;101;114]) 1 && Qeq_bool (vdim v [115;101;99;111;110;100]) (-1)
+  | Ok v => Qeq_bool (vdim v [109;101;116;101;114]) 1 && Qeq_bool (vdim v [115;101;99;111;110;100]) (-1)
             && Qeq_bool (vdim v s_kelvin) 0
   | _ => false
   end = true.
